@@ -1,4 +1,4 @@
-\* C20: thorough: as quick (every hook profile for the good cases), but every order of the module_depends() calls
+\* C20: thorough: as quick, but every order of the module_depends() calls, and for the good cases every <<no post-init, no destructor>> profile with every constructor present (plus, as in quick, every non-empty set of modules that declare nothing lacking the constructor only / every entry point)
 SPECIFICATION Spec
 CONSTANTS
     Source = "enum"
@@ -7,7 +7,7 @@ CONSTANTS
     DepOrders = "all"
     WithMissing = TRUE
     WithAnti = FALSE
-    Profiles = "good"
+    Profiles = "goodsplit"
     Bug = "none"
 INVARIANTS
     TypeOK LoadingIsInnermostCtor RdependsMirrorsDepends SetEmptyAtExit NoGhostInGoodCase
